@@ -153,6 +153,31 @@ Theorem C15_roundtrip_triples : forall l d r : str,
   new_jid (bare (mkJid l d r)) = Ok (mkJid l d []).
 Proof. intros l d r. exact (roundtrip_wf (mkJid l d r)). Qed.
 
+(* Several calls in one process.  A history is any sequence of parses (HParse), of callers
+   assigning to a field of a Jid an earlier step returned (HMut), and of groups of
+   goroutines parsing concurrently (HPar).  Whatever was parsed before and whatever the
+   callers did to the values they were handed, every step shows what it would show in a
+   fresh process: the result of a parse depends on its argument only.  In particular the
+   parse, reject and round-trip clauses above hold of EVERY call of a history, not only
+   of the first call on a string. *)
+Theorem C15_history_independent : forall (h : list hstep) (heap : list (option jid)),
+  run_hist heap h = map step_obs h.
+Proof. exact run_hist_pure. Qed.
+
+(* ... so the same string parsed at the end of two different histories gives the same
+   result, new_jid of it. *)
+Theorem C15_parse_after_any_history :
+  forall (pre1 pre2 : list hstep) (heap1 heap2 : list (option jid)) (s : str),
+  last (run_hist heap1 (pre1 ++ [HParse s])) OMut = OParse (new_jid s) /\
+  last (run_hist heap2 (pre2 ++ [HParse s])) OMut = OParse (new_jid s).
+Proof. exact run_hist_last_parse. Qed.
+
+(* non-vacuity: parse "a@d", the caller sets Resource := "n" on its result, parse "a@d" again *)
+Example C15_history_example :
+  run_hist [] [HParse [97; 64; 100]; HMut 0 FResource [110]; HParse [97; 64; 100]] =
+  [OParse (Ok (mkJid [97] [100] [])); OMut; OParse (Ok (mkJid [97] [100] []))].
+Proof. reflexivity. Qed.
+
 (* non-vacuity: "u1@d.x/r/@", the domain JID with a resource "d.x/r" and "[::1]" meet the
    hypotheses; a space inside the local part is a bad_local_char *)
 Example C15_example :
@@ -193,3 +218,5 @@ Print Assumptions C15_rejects_iff.
 Print Assumptions C15_space_table.
 Print Assumptions C15_invalid_bytes_are_ordinary.
 Print Assumptions C15_roundtrip_triples.
+Print Assumptions C15_history_independent.
+Print Assumptions C15_parse_after_any_history.
